@@ -40,6 +40,8 @@ def rel(a, b):
   a, b = np.asarray(a, float), np.asarray(b, float)
   if a.size == 0:
     return 0.0
+  if not (np.all(np.isfinite(a)) and np.all(np.isfinite(b))):
+    return float('inf')
   return float(np.max(np.abs(a - b)) / (1 + max(np.max(np.abs(a)), np.max(np.abs(b)))))
 
 
@@ -48,8 +50,14 @@ def qrel(a, b):
   return float(np.max(np.minimum(np.abs(a - b).max(axis=-1), np.abs(a + b).max(axis=-1))))
 
 
-def diverged(o):
-  return int(not np.all(np.isfinite(np.array(o['qd']))) or (np.array(o['qd']).size and np.max(np.abs(np.array(o['qd']))) > 1e4))
+def diverged(o, limit=1e4):
+  return int(not np.all(np.isfinite(np.array(o['qd']))) or (np.array(o['qd']).size and np.max(np.abs(np.array(o['qd']))) > limit))
+
+
+def both_diverged(base, *others):
+  """A square is excluded as 'diverged' only when the reference leg itself blows up (or is close to it); a leg that goes
+  non-finite while the reference leg is tame is a broken square, not a diverged trajectory."""
+  return int(diverged(base, 1e3) and True) if diverged(base, 1e3) else 0
 
 
 def nonroot_idx(model):
@@ -214,7 +222,7 @@ def run(ctx):
     rot0 = np.array([qmul(g, qq) for qq in last(o0, 'rot')])
     vel0 = np.array([rotv(v, g) for v in last(o0, 'vel')])
     ang0 = np.array([rotv(v, g) for v in last(o0, 'ang')])
-    ev_r = {'kind': 'rigid', 'diverged': max(diverged(o0), diverged(og)),
+    ev_r = {'kind': 'rigid', 'diverged': both_diverged(o0, og),
             'res_pose': quant(max(rel(pos0, last(og, 'pos')), qrel(rot0, last(og, 'rot')))),
             'res_vel': quant(max(rel(vel0, last(og, 'vel')), rel(ang0, last(og, 'ang')))),
             'res_q': quant(max(rel(last(o0, 'q')[qs], last(og, 'q')[qs]), rel(last(o0, 'qd')[ds], last(og, 'qd')[ds])))}
@@ -222,14 +230,14 @@ def run(ctx):
     op = d['perm'][1]
     order = mt['order']
     idx = [o - 1 for o in order]
-    ev_p = {'kind': 'perm', 'diverged': max(diverged(o0), diverged(op)),
+    ev_p = {'kind': 'perm', 'diverged': both_diverged(o0, op),
             'res_pose': quant(max(rel(last(o0, 'pos')[idx], last(op, 'pos')), qrel(last(o0, 'rot')[idx], last(op, 'rot')))),
             'res_vel': quant(max(rel(last(o0, 'vel')[idx], last(op, 'vel')), rel(last(o0, 'ang')[idx], last(op, 'ang')))),
             'res_q': 0}
     # merge
     om, oa, ob = d['merged'][1], d['a'][1], d['b'][1]
     cat = lambda k: np.concatenate([last(oa, k), last(ob, k)])
-    ev_m = {'kind': 'merge', 'diverged': max(diverged(om), diverged(oa), diverged(ob)),
+    ev_m = {'kind': 'merge', 'diverged': max(both_diverged(oa, om), both_diverged(ob, om)),
             'res_pose': quant(max(rel(cat('pos'), last(om, 'pos')), qrel(cat('rot'), last(om, 'rot')))),
             'res_vel': quant(max(rel(cat('vel'), last(om, 'vel')), rel(cat('ang'), last(om, 'ang')))),
             'res_q': quant(rel(cat('qd'), last(om, 'qd')))}
